@@ -25,7 +25,10 @@ MANIFEST = dict(
          "configuration (order-of-magnitude abstract interpretation: no cancellation of terms of order one directly under the root); "
          "an input angle is reduced (%) only modulo a whole number of turns in its own unit, for every units option; "
          "the exact-zero override for identical inputs is a piece of the result "
-         "(in the output unit) that no other piece overrides; symmetry under exchange of the two points is decided symbolically; a "
+         "(in the output unit) that no other piece overrides; conversely every piece that is the constant 0 is selected by a condition "
+         "that implies identical inputs (equalities that pin both coordinates; a condition shown to hold identically on a symbolic family "
+         "of distinct pairs, or a tolerance comparison holding with slack at identical inputs, is a violation; np.isclose is read as "
+         "|a-b| <= atol + rtol*|b|); symmetry under exchange of the two points is decided symbolically; a "
          "per-point mask must not index the component axis of a stacked array; rank provenance from the raw arguments: single-argument "
          "where()/nonzero() needs a condition reached by ndmin=1-normalised values and .any()/.all() a numpy-typed receiver when the "
          "inputs are scalars (boolean-mask subscripts work for every rank).",
@@ -48,7 +51,7 @@ def xyz(ra, dec, units):
 
 # rules that keep their verdict however the code is laid out (decided by term equality, effect analysis or dominance over
 # resolved calls); every other rule of this check is a template rule (vcheck.core.Check.obt)
-SEMANTIC = ('R08.2', 'R08.4', 'R08.5', 'R08.6', 'R08.7', 'R08.8', 'R08.9')
+SEMANTIC = ('R08.2', 'R08.4', 'R08.5', 'R08.6', 'R08.7', 'R08.8', 'R08.9', 'R08.10')
 
 
 def source_repo():
@@ -189,6 +192,19 @@ class SepEnv(symx.Env):
             if full in ("numpy.nonzero", "numpy.flatnonzero") and len(c.args) == 1 and not c.keywords:
                 m = self.ev(c.args[0])
                 return m if isinstance(m, symx.Mask) else symx.Opaque(full)
+            if full == "numpy.isclose" and 2 <= len(c.args) <= 4 and all(k.arg in ("rtol", "atol", "equal_nan") for k in c.keywords):
+                # numpy's definition, element by element: |a - b| <= atol + rtol*|b| (defaults 1e-5 and 1e-8): a comparison with a
+                # tolerance, which the rules see as the inequality it is (it is not an equality: R08.10)
+                a, b = self.ev(c.args[0]), self.ev(c.args[1])
+                tol = {}
+                for i, nm_, dflt in ((2, "rtol", sp.Rational(1, 100000)), (3, "atol", sp.Rational(1, 100000000))):
+                    node = c.args[i] if len(c.args) > i else kwarg(c, nm_)
+                    tol[nm_] = dflt if node is None else self.ev(node)
+                if all(symx._is_expr(x) for x in (a, b, tol["rtol"], tol["atol"])):
+                    a, b = symx._as_expr(a), symx._as_expr(b)
+                    rel = sp.Le(sp.Abs(a - b), symx._as_expr(tol["atol"]) + symx._as_expr(tol["rtol"]) * sp.Abs(b))
+                    return bool(rel) if rel in (sp.true, sp.false) else symx.Mask(rel)
+                return symx.Opaque(full)
             if full in ("numpy.stack", "numpy.vstack") and len(c.args) == 1 and isinstance(c.args[0], (ast.Tuple, ast.List)) \
                     and (not c.keywords or (full == "numpy.stack" and len(c.keywords) == 1 and self._axis0(c, 1))):
                 x = self.ev(c.args[0])
@@ -715,6 +731,166 @@ def drop_shortcuts(lv, syms):
     return out
 
 
+# --------------------------------------------------------------------------
+# R08.10 a piece of the result that is the constant 0 is selected only for identical inputs
+# --------------------------------------------------------------------------
+# "exactly zero for identical inputs" is met by forcing the result to 0 under a condition.  The true separation of two distinct points
+# is not 0, so the condition of every forced zero must IMPLY that the two points are the same: it must contain an equality that
+# pins the longitudes to each other and one that pins the latitudes (an equality g(x1) == g(x2) pins x only when g is one-to-one on
+# the domain of x; an inequality, a tolerance, an even or periodic function of a coordinate pins nothing).  Both directions are
+# decided on the condition term, for all inputs:
+#   * implies identity: the conjunction holds an equality proportional to ra1 - ra2 and one proportional to dec1 - dec2 (or of a
+#     function that is one-to-one on the latitude range);
+#   * does not: the condition is shown to hold identically on a symbolic family of pairs of distinct points (same meridian mirrored
+#     across the equator, one coordinate left free, longitudes mirrored / half a turn apart), or every equality of it holds with one
+#     coordinate left free while its inequalities hold with slack for identical inputs and are continuous, i.e. on an open
+#     neighbourhood of the identical pairs (a tolerance comparison).
+# Anything else is not recognised (no verdict).
+
+_CONTINUOUS = (sp.Add, sp.Mul, sp.Abs, sp.sin, sp.cos, sp.Min, sp.Max, sp.exp)
+
+
+def _continuous(e, syms):
+    """the term is built from the inputs by continuous operations only (whitelist)"""
+    if not e.has(*syms) or e in syms:
+        return True
+    if isinstance(e, sp.Pow):
+        return bool(e.exp.is_number and (e.exp.is_positive or not e.base.has(*syms))) and _continuous(e.base, syms)
+    if isinstance(e, _CONTINUOUS):
+        return all(_continuous(a, syms) for a in e.args)
+    return False
+
+
+def _unwrap_zero(d):
+    """u for |u|, u**n (n > 0), k*u: d == 0 exactly when u == 0"""
+    while True:
+        if isinstance(d, sp.Abs):
+            d = d.args[0]
+        elif isinstance(d, sp.Pow) and d.exp.is_number and d.exp.is_positive:
+            d = d.base
+        else:
+            return d
+
+
+def _pins(atom, x, y, quarter):
+    """the atom is an equality that holds only when x == y: lhs - rhs proportional to x - y (also inside |.| or a positive power), or
+    sin(k*x) == sin(k*y) where k maps the latitude range [-quarter, quarter] into [-pi/2, pi/2] (sin is one-to-one there)"""
+    if isinstance(atom, sp.Not) and isinstance(atom.args[0], sp.Ne):
+        atom = sp.Eq(*atom.args[0].args)
+    if isinstance(atom, (sp.Le, sp.Ge)) and atom.gts.is_zero and atom.lts.is_nonnegative:
+        atom = sp.Eq(atom.lts, 0, evaluate=False)           # |u| <= 0, u**2 <= 0
+    if not isinstance(atom, sp.Eq):
+        return False
+    try:
+        d = _unwrap_zero(sp.simplify(atom.lhs - atom.rhs))
+        q = sp.simplify(d / (x - y))
+        if q.is_number and q != 0 and q.is_finite:
+            return True
+    except Exception:
+        return False
+    if quarter is not None:
+        for a, b in ((atom.lhs, atom.rhs), (atom.rhs, atom.lhs)):
+            if isinstance(a, sp.sin) and isinstance(b, sp.sin) and b == a.xreplace({x: y}) and a.args[0].has(x):
+                try:
+                    k = sp.simplify(a.args[0] / x)
+                    if k.is_number and k != 0 and bool(sp.Abs(k) * quarter <= sp.pi / 2):
+                        return True
+                except Exception:
+                    pass
+    return False
+
+
+def _holds(c, sub):
+    """the condition with the substitution applied is identically true"""
+    try:
+        z = c.xreplace(sub)
+        if z == sp.true:
+            return True
+        if z == sp.false:
+            return False
+        return sp.simplify(z) == sp.true
+    except Exception:
+        return False
+
+
+def _slack_at_identity(atom, syms):
+    """an inequality that is continuous in the inputs and strictly satisfied by identical inputs (for those with positive coordinates
+    at least): it holds on an open set around them, hence for pairs of distinct points"""
+    ra1, dec1, ra2, dec2 = syms
+    if isinstance(atom, sp.Not) and isinstance(atom.args[0], (sp.Le, sp.Lt, sp.Ge, sp.Gt)):
+        atom = atom.args[0].negated
+    if not isinstance(atom, (sp.Le, sp.Lt, sp.Ge, sp.Gt)):
+        return False
+    if not (_continuous(atom.lhs, syms) and _continuous(atom.rhs, syms)):
+        return False
+    pr, pd = sp.Symbol("ra_positive", positive=True), sp.Symbol("dec_positive", positive=True)
+    try:
+        g = (atom.gts - atom.lts).xreplace({ra1: pr, ra2: pr, dec1: pd, dec2: pd})
+        return g.is_positive is True or sp.simplify(g).is_positive is True
+    except Exception:
+        return False
+
+
+def _distinct_pairs_selected(cond, syms, half):
+    """a description of a family of pairs of DISTINCT points on which the condition holds identically, or None when none is found"""
+    ra1, dec1, ra2, dec2 = syms
+    families = (
+        ("every pair of points whatever (the condition does not depend on the inputs)", {}),
+        ("two points of one meridian with any two latitudes (ra2 = ra1, dec2 free: the latitudes are not compared)", {ra2: ra1}),
+        ("two points of one parallel with any two longitudes (dec2 = dec1, ra2 free: the longitudes are not compared)", {dec2: dec1}),
+        ("two points on one meridian mirrored across the equator (ra2 = ra1, dec2 = -dec1: true separation 2*|dec1|)", {ra2: ra1, dec2: -dec1}),
+        ("two points of one parallel half a turn apart in longitude (dec2 = dec1, ra2 = ra1 + %s)" % half, {dec2: dec1, ra2: ra1 + half}),
+        ("two points of one parallel at mirrored longitudes (dec2 = dec1, ra2 = -ra1)", {dec2: dec1, ra2: -ra1}),
+        ("two points of one parallel at supplementary longitudes (dec2 = dec1, ra2 = %s - ra1)" % half, {dec2: dec1, ra2: half - ra1}),
+    )
+    for what, sub in families:
+        if _holds(cond, sub):
+            return what
+    # tolerance comparisons: every conjunct holds with one coordinate left free, or holds with slack for identical inputs
+    atoms = list(cond.args) if isinstance(cond, sp.And) else [cond]
+    for what, sub in (("latitudes", {ra2: ra1}), ("longitudes", {dec2: dec1}), ("coordinates", {})):
+        loose = [a for a in atoms if not _holds(a, sub)]
+        if loose and all(_slack_at_identity(a, syms) for a in loose):
+            return ("every pair of nearby points whose %s differ by less than the tolerance of `%s`: a comparison with a tolerance holds "
+                    "with slack for identical inputs, hence on a whole neighbourhood of them" % (what, str(loose[0])[:120]))
+    return None
+
+
+def forced_zero_rule(chk, fi, tag, lv, syms, uin):
+    """judges every leaf of the decision list that is the constant 0; returns the set of selecting conditions that were NOT shown to
+    imply identical inputs but do hold for them (the other rules treat such a piece as the exact-zero override it was meant to be,
+    so that the defect is reported once, here)"""
+    ra1, dec1, ra2, dec2 = syms
+    half = sp.Integer(180) if uin == "deg" else sp.pi
+    loose, n = set(), 0
+    for v, path in lv:
+        if v != 0 or not path:
+            continue
+        n += 1
+        atoms = []
+        for c, pol in path:
+            pc = _pos(c, pol)
+            atoms += list(pc.args) if isinstance(pc, sp.And) else [pc]
+        pin_ra = any(_pins(a, ra1, ra2, None) for a in atoms)
+        pin_dec = any(_pins(a, dec1, dec2, half / 2) for a in atoms)
+        why = ""
+        if pin_ra and pin_dec:
+            ok = True
+        else:
+            fam = _distinct_pairs_selected(sp.And(*atoms), syms, half)
+            ok = False if fam is not None else None
+            missing = " and ".join(w for w, p in (("the longitudes", pin_ra), ("the latitudes", pin_dec)) if not p)
+            why = ("; no equality of the condition pins %s to each other" % missing) + (
+                ", and the condition holds for %s, so distinct points get separation 0 instead of their true separation" % fam if fam is not None
+                else ": whether it holds for distinct points is not decided")
+            if _holds(path[-1][0], {ra2: ra1, dec2: dec1}) and path[-1][1]:
+                loose.add(path[-1][0])
+        chk.ob("R08.10", "%s::forced-zero-only-for-identical-inputs%s" % (tag, "" if n == 1 else "#%d" % n), ok, fi.where(),
+               "a piece of the result that is the constant 0 is selected only when the two points are identical: the piece selected by `%s`%s"
+               % (str(sp.And(*atoms))[:200], why))
+    return loose
+
+
 def _as_clip(e):
     """CLIP(x, lo, hi) for the equivalent spellings of a two-sided clip: minimum(maximum(x, lo), hi) and maximum(minimum(x, hi), lo)
     with numbers lo <= hi (this is how numpy defines clip); any other term is returned as it is"""
@@ -732,15 +908,17 @@ def _as_clip(e):
     return e
 
 
-def split_identity(lv, syms):
+def split_identity(lv, syms, also=()):
     """(zero leaves guarded by the identical-inputs condition, is the first of them the top-priority leaf, the remaining leaves with the
-    negated identity condition removed from their paths)"""
+    negated identity condition removed from their paths).  also: conditions that hold for identical inputs and were judged by
+    forced_zero_rule (R08.10) to hold for other pairs as well; the piece they select still is the exact zero of identical inputs."""
+    isid = lambda c: _is_identity_cond(c, syms) or c in also
     zero, rest = [], []
     for i, (v, path) in enumerate(lv):
-        if v == 0 and len(path) >= 1 and path[-1][1] and _is_identity_cond(path[-1][0], syms):
+        if v == 0 and len(path) >= 1 and path[-1][1] and isid(path[-1][0]):
             zero.append((i, v, path))
         else:
-            rest.append((v, tuple((c, pol) for c, pol in path if not (not pol and _is_identity_cond(c, syms)))))
+            rest.append((v, tuple((c, pol) for c, pol in path if not (not pol and isid(c)))))
     return zero, rest
 
 
@@ -808,7 +986,8 @@ def check_chord(chk, fi, tag, r, syms, uin, uout):
     # exact-zero override: a leaf that is exactly 0 (in the output unit: 0 times the unit factor is 0) selected by `ra1 == ra2 and
     # dec1 == dec2`, and no other piece takes priority over it.  Whether the zero is stored before or after the unit conversion, with
     # a boolean mask or an index array, does not matter.
-    zero, rest = split_identity(drop_shortcuts(lv, syms), syms)
+    loose = forced_zero_rule(chk, fi, tag, lv, syms, uin)
+    zero, rest = split_identity(drop_shortcuts(lv, syms), syms, loose)
     chk.ob("R08.3", tag + "::exact-zero-for-identical-inputs", len(zero) >= 1, fi.where(),
            "identical inputs give exactly 0 (override piece: %s)" % (zero[0][2][-1][0] if zero else "MISSING"))
     if zero:
@@ -879,12 +1058,9 @@ def _is_identity_cond(c, syms):
         return False
     ok = 0
     for a in c.args:
-        if isinstance(a, sp.Eq):
-            d = sp.simplify(a.lhs - a.rhs)
-            for x, y in ((ra1, ra2), (dec1, dec2)):
-                q = sp.simplify(d / (x - y))
-                if q.is_number and q != 0:
-                    ok += 1
+        for x, y in ((ra1, ra2), (dec1, dec2)):
+            if _pins(a, x, y, None):        # an equality proportional to x - y, in any of its spellings (|x - y| == 0, ~(x != y))
+                ok += 1
     return ok == 2 and len(c.args) == 2
 
 
@@ -895,7 +1071,8 @@ def check_cosine(chk, fi, r, syms):
     if not lv:
         chk.ob("R08.4", tag + "::law-of-cosines", None, fi.where(), "the result of the symbolic evaluation is not a term: %r" % (r,))
         return
-    zero, rest = split_identity(drop_shortcuts(lv, syms), syms)
+    loose = forced_zero_rule(chk, fi, tag, lv, syms, "deg")
+    zero, rest = split_identity(drop_shortcuts(lv, syms), syms, loose)
     ok = len(zero) >= 1 and _has_priority(zero[0], syms)
     chk.ob("R08.3", tag + "::exact-zero-for-identical-inputs", ok, fi.where(), "identical inputs give exactly 0 (override piece: %s)" % (zero[0][2][-1][0] if zero else "MISSING"))
     if len(rest) != 1 or rest[0][1]:
